@@ -489,10 +489,22 @@ func (w *World) HotStorageOp() {
 		return
 	}
 	k := w.U.Slots[r.Intn(2)]
-	if r.Intn(6) == 0 {
+	switch r.Intn(12) {
+	case 0, 1:
 		w.log("GetState/GetCommittedState %x %x", a[:4], k[31:])
 		st.GetState(a, k)
 		st.GetCommittedState(a, k)
+		return
+	case 2:
+		// the contract self-destructs (it stays callable until the end of the transaction, may
+		// receive value again and self-destruct once more)
+		w.log("Suicide %x", a[:4])
+		st.Suicide(a)
+		return
+	case 3:
+		v := w.amount()
+		w.log("AddBalance %x %v", a[:4], v)
+		st.AddBalance(a, v)
 		return
 	}
 	v := common.BigToHash(big.NewInt(int64(r.Intn(3))))
